@@ -51,6 +51,7 @@ u8_enum!(FinScript {
     TryUnwrapG = 10,
     FinalizeAgainG = 11,
     DropG = 12,
+    UpgradeWcellIntoCell0 = 13,
 });
 
 u8_enum!(DropScript {
@@ -216,6 +217,8 @@ pub struct MObj {
     pub leaky: bool,
     /// A Weak::upgrade issued while a destructor was on the stack returned a Cc to this object (during the current operation)
     pub upgraded_in_dtor: bool,
+    /// Was made reachable again by a finalizer after having been finalized
+    pub resurrected: bool,
     pub buffered: bool,
     pub side: usize,
     pub map_addr: usize,
@@ -245,6 +248,7 @@ impl MObj {
             limbo: false,
             leaky: false,
             upgraded_in_dtor: false,
+            resurrected: false,
             buffered: false,
             side: 0,
             map_addr: 0,
@@ -505,6 +509,7 @@ pub struct LensCfg {
     pub max_faults: u32,
     pub fault_kinds: u8, // bitmask over CpKind
     pub codes: u64,      // bitmask over Code
+    pub seed_codes: u64, // operations the construction prefixes of a seed family may use
     pub fin_menu: Vec<u8>,
     pub drop_menu: Vec<u8>,
     pub closure_menu: Vec<u8>,
@@ -596,14 +601,18 @@ pub fn install_ctx(c: *const Ctx) {
 const INJECTED: &str = "ccmc-injected-fault";
 const CALLBACK_BUDGET: u32 = 20_000;
 
+pub const AFTER_FAULT_PREFIX: &str = "after a caught callback panic: ";
+
 pub fn viol(prop: &'static str, pred: &'static str, msg: String) {
     if let Some(c) = try_ctx() {
         let _p = alloc::pause();
         // Whatever breaks after a callback panic was caught (or while one unwinds) is a containment failure
         let after_fault = c.fault_fired.get() || c.model.try_borrow().map_or(false, |m| m.faults > 0);
         if after_fault && prop != "MACHINERY" && prop != "C07" {
-            let msg = format!("after a caught callback panic: [{} {}] {}", prop, pred, msg);
-            c.violations.borrow_mut().push(Violation { prop: "C07", pred, msg });
+            // The violation keeps its own property (so that e.g. the C05 check sees a second finalization after a
+            // panicking finalizer); the C07 check claims every violation carrying this prefix.
+            let msg = format!("{}{}", AFTER_FAULT_PREFIX, msg);
+            c.violations.borrow_mut().push(Violation { prop, pred, msg });
         } else {
             c.violations.borrow_mut().push(Violation { prop, pred, msg });
         }
@@ -973,7 +982,11 @@ fn cb_finalize(node: &Node) {
         }
         if m.objs[id].fin_flag {
             let calls = m.objs[id].fin_calls;
+            let res = m.objs[id].resurrected;
             drop(m);
+            if res {
+                v!("C06", "P-res", "resurrected object #{} finalized a second time when it became unreachable again", id);
+            }
             v!("C05", "P-fin", "object #{} finalized again without finalize_again (finalize calls so far: {})", id, calls);
             return;
         }
@@ -1149,6 +1162,28 @@ fn cb_drop_end(id: u8) {
 // ------------------------------------------------------------------------------------------------
 // Scripts
 // ------------------------------------------------------------------------------------------------
+
+/// Marks everything reachable from `t` that has already been finalized as resurrected
+fn mark_resurrected(t: u8) {
+    let c = ctx();
+    let mut m = c.model.borrow_mut();
+    let mut st = vec![t];
+    let mut seen: Set = 0;
+    while let Some(o) = st.pop() {
+        if seen & (1 << o) != 0 {
+            continue;
+        }
+        seen |= 1 << o;
+        if m.objs[o as usize].fin_flag {
+            m.objs[o as usize].resurrected = true;
+        }
+        for s in 0..S {
+            if let Some(x) = m.objs[o as usize].cells[s] {
+                st.push(x);
+            }
+        }
+    }
+}
 
 fn g_is_empty() -> bool {
     ctx().g.borrow().is_none()
@@ -1421,6 +1456,9 @@ fn run_fin_script(node: &Node) {
                         drop(m);
                         *c.g.borrow_mut() = Some(cl);
                         c.stats.borrow_mut().resurrections += 1;
+                        if let Some(t) = t {
+                            mark_resurrected(t);
+                        }
                     }
                 }
             }
@@ -1431,9 +1469,13 @@ fn run_fin_script(node: &Node) {
                     if let Some(child) = cell.take() {
                         let mut m = c.model.borrow_mut();
                         m.g = m.objs[id].cells[0].take();
+                        let t = m.g;
                         drop(m);
                         *c.g.borrow_mut() = Some(child);
                         c.stats.borrow_mut().resurrections += 1;
+                        if let Some(t) = t {
+                            mark_resurrected(t);
+                        }
                     }
                 }
             }
@@ -1457,6 +1499,28 @@ fn run_fin_script(node: &Node) {
                                 c.model.borrow_mut().g = Some(t);
                             }
                             *c.g.borrow_mut() = Some(cc);
+                            c.stats.borrow_mut().resurrections += 1;
+                            if let WRef::Obj(t) = target {
+                                mark_resurrected(t);
+                            }
+                        }
+                    }
+                }
+            }
+        },
+        FinScript::UpgradeWcellIntoCell0 => {
+            // Resurrection into the heap: the upgraded pointer is stored in a traced field of the object itself
+            #[cfg(feature = "weak")]
+            {
+                let empty = node.cells[0].try_borrow().map_or(false, |cell| cell.is_none());
+                let target = c.model.borrow().objs[id].wcell;
+                if let (true, Ok(w), Some(target)) = (empty, node.wcell.try_borrow(), target) {
+                    if let Some(w) = w.as_ref() {
+                        if let Some(cc) = checked_upgrade(w, target) {
+                            if let WRef::Obj(t) = target {
+                                c.model.borrow_mut().objs[id].cells[0] = Some(t);
+                            }
+                            *node.cells[0].borrow_mut() = Some(cc);
                             c.stats.borrow_mut().resurrections += 1;
                         }
                     }
